@@ -151,12 +151,16 @@ impl NodeDrive {
                             value_addr,
                             value.key_disk_addr,
                         );
+                        // Storing a key is no write to it: the key keeps the operation id of its
+                        // last write. With a new id the stored value counted as newer than a
+                        // client's write that had taken its id just before (newer strategy): that
+                        // write was answered ok, dropped here and still sent to the other nodes
                         db.set_value_as_ok(
                             &key,
                             &value,
                             value_addr,
                             value.key_disk_addr,
-                            Databases::next_op_log_id(),
+                            value.opp_id,
                         );
                         // Append key file
                     } else {
@@ -166,7 +170,7 @@ impl NodeDrive {
                             &value,
                             value_addr,
                             next_key_addr,
-                            Databases::next_op_log_id(),
+                            value.opp_id,
                         );
                         next_key_addr = next_key_addr + key_size;
                     }
@@ -341,7 +345,7 @@ fn write_new_key_value(
         value,
         value_addr,
         next_key_addr,
-        Databases::next_op_log_id(),
+        value.opp_id,
     );
     (record_size, key_size)
 }
